@@ -74,9 +74,13 @@ func concBody(x *Exec, raw json.RawMessage) {
 				res := r.Do(ti, op)
 				recs[ti] = append(recs[ti], opRec{tid: vsched.CurID(), th: ti, op: op, res: res, call: c, ret: x.Now()})
 			}
+			r.threadsDone.Add(1)
 		})
 	}
 	g0, s0 := r.C.VerifTableResizes()
+	if st := r.C.VerifStatus(); st.WithMaintenance && st.ReadBufferLen >= 4 {
+		x.Count("read-buffer-saturated-at-start")
+	}
 	ok := x.Threads(bodies...)
 	if g1, s1 := r.C.VerifTableResizes(); g1 > g0 {
 		x.Count("table-grew")
